@@ -982,8 +982,11 @@ def run_compare(
                 ) = compare(variant_tables, sample_names, dataset_names, ploidy)
                 add_block_stats(block_stats)
                 if tsv_multiway_file:
+                    # distinct names in file order (a set of strings is iterated in hash-seed order)
                     sample_name = (
-                        "_".join(set(sample_names)) if ignore_sample_name else sample_names[0]
+                        "_".join(dict.fromkeys(sample_names))
+                        if ignore_sample_name
+                        else sample_names[0]
                     )
                     for (dataset_list0, dataset_list1), count in multiway_results.items():
                         print(
